@@ -4,3 +4,5 @@
 package encoder
 
 func verifSlot(fast bool, index, typeptr uintptr, set *OpcodeSet) {}
+
+func verifProgram(typeptr uintptr, set *OpcodeSet) {}
